@@ -6,7 +6,9 @@
    reachable-value invariant, see C09.  `active_at (tbl s) k` is what ansi_settings_at(k) reports. *)
 From AS Require Import Base.
 From AS.Model Require Import Table Ops.
-From AS.Proofs Require Import TableProofs SliceProofs PadProofs ApplyProofs.
+From AS Require Import Effects.
+From AS.Spec Require Import Terminal.
+From AS.Proofs Require Import TableProofs SliceProofs PadProofs ApplyProofs SgrAlgebra ApplyDisplay.
 
 (* the text never changes *)
 Theorem C06_text : forall s new st en top, base (apply_fmt s new st en top) = base s.
@@ -59,6 +61,53 @@ End C06.
 Print Assumptions C06_outside.
 Print Assumptions C06_inside_bottom.
 Print Assumptions C06_inside_top.
+
+
+(* ---------- the two display clauses, on the specification terminal ----------
+   `touches B e`: some setting among the texts B sets, clears or resets effect e.
+   topmost=False: on every character of the range, the displayed value of every effect that an existing
+   setting on that character sets or clears is unchanged, and where nothing conflicts the new settings
+   show. *)
+Theorem C06_display_bottom : forall s new st en e k,
+  ssorted (tbl s) -> nodup_active (tbl s) -> fresh_for new (tbl s) -> new <> [] ->
+  let len := length (base s) in
+  let i := slice_idx len st 0 in let j := slice_idx len en len in
+  range_empty len i j = false -> i <= k < j ->
+  Forall (fun t => wf_setting t = true) (map stxt new) ->
+  let before := map stxt (active_at (tbl s) k) in
+  let after := map stxt (active_at (tbl (apply_fmt s new st en false)) k) in
+  (touches before e -> style_of after e = style_of before e)
+  /\ (~ touches before e -> style_of after e = style_of (map stxt new) e).
+Proof.
+  intros s new st en e k Hs Hnd Hfr Hne len i j Hre Hk Hwf before after.
+  assert (E : after = map stxt new ++ before).
+  { unfold after, before. rewrite (apply_fmt_inside_bottom s new st en false Hs Hnd Hfr Hne Hre eq_refl k Hk).
+    apply map_app. }
+  rewrite E. split; intros H.
+  - now apply style_below_hidden.
+  - now apply style_below_shows.
+Qed.
+Print Assumptions C06_display_bottom.
+
+(* topmost=True: on the first character of the range, and on each following character for as long as
+   no other setting begins in between, the new settings determine the displayed value of every effect
+   they touch *)
+Theorem C06_display_top : forall s new st en e k,
+  ssorted (tbl s) -> nodup_active (tbl s) -> fresh_for new (tbl s) -> new <> [] ->
+  let len := length (base s) in
+  let i := slice_idx len st 0 in let j := slice_idx len en len in
+  range_empty len i j = false -> i <= k < j ->
+  (forall kp, In kp (tbl s) -> i < fst kp <= k -> padd (snd kp) = []) ->
+  Forall (fun t => wf_setting t = true) (map stxt (active_at (tbl s) k)) ->
+  touches (map stxt new) e ->
+  style_of (map stxt (active_at (tbl (apply_fmt s new st en true)) k)) e = style_of (map stxt new) e.
+Proof.
+  intros s new st en e k Hs Hnd Hfr Hne len i j Hre Hk Hno Hwf Ht.
+  destruct (apply_fmt_inside_top s new st en true Hs Hfr Hne Hre eq_refl k Hk) as (l1 & l2 & E1 & E2 & _ & _ & H5).
+  specialize (H5 Hno). subst l2. rewrite app_nil_r in E1, E2. rewrite E2, map_app.
+  apply style_on_top; [|exact Ht]. rewrite <- E1. exact Hwf.
+Qed.
+Print Assumptions C06_display_top.
 
 (* the result is again well formed (used by C09): sorted, within bounds, passes the library's own
    strict self-check, no object active twice, and closed exactly as before *)
